@@ -39,6 +39,8 @@ struct Scenario {
     name: &'static str,
     /// operations applied (and settled) on top of the base state
     prefix: Vec<Op>,
+    /// the operation is one that krill refuses (it leaves an audit record)
+    rejected: bool,
     /// restart right before the operation (cold caches)
     cold: bool,
     /// operations run (and pumped) in the same instance right before the cut
@@ -56,31 +58,33 @@ fn scenarios(thorough: bool) -> Vec<Scenario> {
         // one more accepted command before: the aggregate cache is refreshed
         // lazily, so whether the entry is current when the cut command runs
         // depends on the history before it
-        Scenario { name: "roa-add-after-another", prefix: vec![], cold: false, before: vec![Op::Roa { ca: c(), add: vec!["10.0.3.0/24 => 65003".into()], del: vec![] }], op: Op::Roa { ca: c(), add: vec!["10.0.2.0/24 => 65000".into()], del: vec![] } },
-        Scenario { name: "roll-activate", prefix: vec![Op::RollInit { ca: c() }], cold: false, before: vec![], op: Op::RollActivate { ca: c() } },
+        Scenario { name: "roa-add-after-another", prefix: vec![], rejected: false, cold: false, before: vec![Op::Roa { ca: c(), add: vec!["10.0.3.0/24 => 65003".into()], del: vec![] }], op: Op::Roa { ca: c(), add: vec!["10.0.2.0/24 => 65000".into()], del: vec![] } },
+        Scenario { name: "roll-activate", prefix: vec![Op::RollInit { ca: c() }], rejected: false, cold: false, before: vec![], op: Op::RollActivate { ca: c() } },
         // a snapshot round (the daily task) after changes: every aggregate's
         // snapshot and the repository content log's snapshot + change sets
         // a publisher with content is removed: two stores (access aggregate,
         // content log) and the served files have to agree afterwards
-        Scenario { name: "publisher-removed", prefix: vec![Op::AddCa { ca: "alice".into() }, Op::PubDelta { publisher: "alice".into(), elems: vec![crate::ops::PubEl::Publish { uri: "rsync://localhost/repo/alice/a.txt".into(), content: 1 }] }], cold: false, before: vec![], op: Op::RemovePublisher { publisher: "alice".into() } },
+        Scenario { name: "publisher-removed", prefix: vec![Op::AddCa { ca: "alice".into() }, Op::PubDelta { publisher: "alice".into(), elems: vec![crate::ops::PubEl::Publish { uri: "rsync://localhost/repo/alice/a.txt".into(), content: 1 }] }], rejected: false, cold: false, before: vec![], op: Op::RemovePublisher { publisher: "alice".into() } },
         // a CA gives up a parent: revocation at the parent, class removal in
         // the CA and in its published-object set, withdrawal
-        Scenario { name: "parent-removed", prefix: vec![], cold: false, before: vec![], op: Op::RemoveParent { ca: "gc".into(), parent: c() } },
-        Scenario { name: "snapshots-after-changes", prefix: vec![Op::Snapshots, Op::Roa { ca: c(), add: vec!["10.0.4.0/24 => 65000".into()], del: vec![] }], cold: false, before: vec![], op: Op::Snapshots },
-        Scenario { name: "entitlement-shrink", prefix: vec![], cold: false, before: vec![], op: Op::Entitle { parent: p(), child: c(), res: r3("AS65000-AS65005", "10.0.0.0/16", "2001:db8::/48") } },
-        Scenario { name: "roll-init", prefix: vec![], cold: false, before: vec![], op: Op::RollInit { ca: c() } },
-        Scenario { name: "roa-add", prefix: vec![], cold: false, before: vec![], op: Op::Roa { ca: c(), add: vec!["10.0.2.0/24 => 65000".into()], del: vec![] } },
-        Scenario { name: "roa-add-cold", prefix: vec![], cold: true, before: vec![], op: Op::Roa { ca: c(), add: vec!["10.0.2.0/24 => 65000".into()], del: vec![] } },
+        // a command that is refused: all it writes is its audit record
+        Scenario { name: "roa-add-refused", prefix: vec![], rejected: true, cold: false, before: vec![Op::Roa { ca: c(), add: vec!["10.0.3.0/24 => 65003".into()], del: vec![] }], op: Op::Roa { ca: c(), add: vec!["192.168.0.0/24 => 65000".into()], del: vec![] } },
+        Scenario { name: "parent-removed", prefix: vec![], rejected: false, cold: false, before: vec![], op: Op::RemoveParent { ca: "gc".into(), parent: c() } },
+        Scenario { name: "snapshots-after-changes", prefix: vec![Op::Snapshots, Op::Roa { ca: c(), add: vec!["10.0.4.0/24 => 65000".into()], del: vec![] }], rejected: false, cold: false, before: vec![], op: Op::Snapshots },
+        Scenario { name: "entitlement-shrink", prefix: vec![], rejected: false, cold: false, before: vec![], op: Op::Entitle { parent: p(), child: c(), res: r3("AS65000-AS65005", "10.0.0.0/16", "2001:db8::/48") } },
+        Scenario { name: "roll-init", prefix: vec![], rejected: false, cold: false, before: vec![], op: Op::RollInit { ca: c() } },
+        Scenario { name: "roa-add", prefix: vec![], rejected: false, cold: false, before: vec![], op: Op::Roa { ca: c(), add: vec!["10.0.2.0/24 => 65000".into()], del: vec![] } },
+        Scenario { name: "roa-add-cold", prefix: vec![], rejected: false, cold: true, before: vec![], op: Op::Roa { ca: c(), add: vec!["10.0.2.0/24 => 65000".into()], del: vec![] } },
     ];
     if thorough {
         v.extend([
-            Scenario { name: "roa-del", prefix: vec![], cold: false, before: vec![], op: Op::Roa { ca: c(), add: vec![], del: vec!["10.0.1.0/24 => 65000".into()] } },
-            Scenario { name: "aspa-set", prefix: vec![], cold: false, before: vec![], op: Op::AspaSet { ca: c(), customer: 65002, providers: vec![65003, 65004] } },
-            Scenario { name: "bgpsec-add", prefix: vec![], cold: false, before: vec![], op: Op::BgpsecAdd { ca: c(), asn: 65000, csr: 0 } },
-            Scenario { name: "entitlement-grow-cold", prefix: vec![Op::Entitle { parent: p(), child: c(), res: r3("AS65000-AS65005", "10.0.0.0/16", "2001:db8::/48") }], cold: true, before: vec![], op: Op::Entitle { parent: p(), child: c(), res: r3("AS65000-AS65005", "10.0.0.0/16, 10.1.0.0/16", "2001:db8::/48") } },
-            Scenario { name: "republish-after-a-day", prefix: vec![Op::Tick { secs: 86400 }], cold: false, before: vec![], op: Op::Republish { force: false } },
-            Scenario { name: "roll-init-rolling-parent", prefix: vec![Op::RollInit { ca: p() }], cold: false, before: vec![], op: Op::RollInit { ca: c() } },
-            Scenario { name: "update-id", prefix: vec![], cold: false, before: vec![], op: Op::UpdateId { ca: c() } },
+            Scenario { name: "roa-del", prefix: vec![], rejected: false, cold: false, before: vec![], op: Op::Roa { ca: c(), add: vec![], del: vec!["10.0.1.0/24 => 65000".into()] } },
+            Scenario { name: "aspa-set", prefix: vec![], rejected: false, cold: false, before: vec![], op: Op::AspaSet { ca: c(), customer: 65002, providers: vec![65003, 65004] } },
+            Scenario { name: "bgpsec-add", prefix: vec![], rejected: false, cold: false, before: vec![], op: Op::BgpsecAdd { ca: c(), asn: 65000, csr: 0 } },
+            Scenario { name: "entitlement-grow-cold", prefix: vec![Op::Entitle { parent: p(), child: c(), res: r3("AS65000-AS65005", "10.0.0.0/16", "2001:db8::/48") }], rejected: false, cold: true, before: vec![], op: Op::Entitle { parent: p(), child: c(), res: r3("AS65000-AS65005", "10.0.0.0/16, 10.1.0.0/16", "2001:db8::/48") } },
+            Scenario { name: "republish-after-a-day", prefix: vec![Op::Tick { secs: 86400 }], rejected: false, cold: false, before: vec![], op: Op::Republish { force: false } },
+            Scenario { name: "roll-init-rolling-parent", prefix: vec![Op::RollInit { ca: p() }], rejected: false, cold: false, before: vec![], op: Op::RollInit { ca: c() } },
+            Scenario { name: "update-id", prefix: vec![], rejected: false, cold: false, before: vec![], op: Op::UpdateId { ca: c() } },
         ]);
     }
     v
@@ -390,7 +394,7 @@ pub fn run(tier: &Tier, args: &[String]) -> i32 {
                 let log = e3::disarm();
                 let _ = catch_up(&mut w2);
                 let rp_ok = crate::rp::full_check(&w2).map(|_| true).unwrap_or(false);
-                json!({"log": log, "ok": o.ok && o.fatal.is_none(), "err": o.err, "twin": observable(&w2), "rp_ok": rp_ok, "pre_len": pre_len, "adds_command": len_after_apply > pre_len})
+                json!({"log": log, "ok": (o.ok != sc.rejected) && o.fatal.is_none(), "err": o.err, "twin": observable(&w2), "rp_ok": rp_ok, "pre_len": pre_len, "adds_command": len_after_apply > pre_len})
             });
             let _ = std::fs::remove_dir_all(&d);
             json!({"pre": pre, "count": res, "clock_offset": clock_offset, "keys_used": keys_used})
